@@ -25,12 +25,27 @@ type zzProbe struct {
 type zzDid struct {
 	set, add, del, interchainEv, serviceEv, balance bool
 	end                                              int
+	senderDelta                                      int64 // net change of the sender's own balance made by the contract
 }
 
 func (p *zzProbe) Run() *boltvm.Response {
 	n := zz.Choice("actions", p.maxActions+1)
 	for i := 0; i < n; i++ {
-		switch zz.Choice("action", 6) {
+		switch zz.Choice("action", 7) {
+		case 6: // the contract moves value out of / into the SENDER's own account
+			acc := p.GetAccount(zzUsers[0]).(interface {
+				AddBalance(*big.Int)
+				SubBalance(*big.Int)
+				GetBalance() *big.Int
+			})
+			if zz.Choice("senderDelta", 2) == 0 {
+				acc.AddBalance(big.NewInt(3))
+				p.did.senderDelta += 3
+			} else if acc.GetBalance().Cmp(big.NewInt(3)) >= 0 {
+				acc.SubBalance(big.NewInt(3))
+				p.did.senderDelta -= 3
+			}
+			p.did.balance = true
 		case 0:
 			p.Set("k1", []byte{zz.U8("val")})
 			p.did.set = true
@@ -150,8 +165,15 @@ func ZZH_C07_probe() {
 		zz.Assert("C07.failed.cache-untouched", !cached)
 	} else {
 		zz.Assert("C07.ok.end", did.end == 0)
-		zz.Assert("C07.ok.sender-pays-fee", zz.BigEq(postSender, new(big.Int).Sub(preSender, fee)))
+		zz.Assert("C07.ok.sender-pays-fee", zz.BigEq(postSender, new(big.Int).Sub(new(big.Int).Add(preSender, big.NewInt(did.senderDelta)), fee)))
 	}
-	// fee reaches the admin (single admin: no rounding)
+	// fee reaches the admin (single admin: no rounding): what the sender lost beyond the
+	// contract's own effect on it is exactly what the admin gained
 	zz.Assert("C07.admin-gets-fee", zz.BigLe(preAdmin, zzBalance(exec, zzAdmins[0])))
+	gained := new(big.Int).Sub(zzBalance(exec, zzAdmins[0]), preAdmin)
+	base := preSender
+	if !failed {
+		base = new(big.Int).Add(preSender, big.NewInt(did.senderDelta))
+	}
+	zz.Assert("C07.admin-gains-exactly-what-the-sender-paid", zz.BigEq(gained, new(big.Int).Sub(base, postSender)))
 }
